@@ -106,7 +106,7 @@ CHECKS.update({
 CHECKS.update({
  "C07": dict(engine="tlc+h_life", cat=MC, ref="4 C07",
    text="TLC proves the C07 invariants (promised statements on disk in order at stop/exit; signalled thread's statements then notice; right wait "
-        "status; restart works) on Life.tla for all interleavings within small bounds, with -coverage and 7 seeded model defects caught; seeded TLC "
+        "status; restart works) on Life.tla for all interleavings within small bounds, with -coverage and every seeded model defect (10 variants) caught; seeded TLC "
         "behaviours are run as forked children with the real backend thread/FileSink/signals and every recorded execution is validated by TLC "
         "against LifeContract (TraceLife.tla); NewCtxRA.tla behaviours ending with Backend::stop() (a lost registration loses statements at stop); Life.tla carries the timestamp-ordering grace period (statements too young to be read, Age) with a seeded model defect for an exit drain that stops early; the stop handshake under the C++ release/acquire model is StopRA.tla with the memory orders extracted "
         "from the code, every transition replayed on the REAL backend thread / Backend::stop() / log calls on a shim atomic (h_stop), judged by TraceStop.tla",
